@@ -1663,6 +1663,11 @@ def c20_case(spec, res, batch, tag, dot_texts):
         got.append((dst, src))
     if sorted(got) != sorted(want_edges):
         res.violations.append(("edges %s are not exactly the requirements %s" % (sorted(got), sorted(want_edges)), case))
+    used = {by_id.get(a) for a, b, _ in g.edges} | {by_id.get(b) for a, b, _ in g.edges}
+    for k in holders:
+        if k not in used:
+            res.violations.append(("a node that is neither an atomic job nor the anchor of any edge (invisible node of an empty "
+                                   "nested scheduler that no edge is attached to)", case))
     if g.compound is not True:
         res.violations.append(("compound=true missing (edges to clusters would not be clipped)", case))
 
